@@ -20,6 +20,7 @@ const (
 	tFF           // func returning tF
 	tO            // object with v:int and method m
 	tSelf
+	tKW // object used only for ** expansion (its keys are in sig.kws)
 )
 
 type fsig struct {
@@ -206,19 +207,41 @@ func (g *G) genArgs(s *scope, sg fsig, d int) []Arg {
 			g.st.unknownKw++
 		}
 	}
-	// ** must come last, and must not conflict with explicit kwargs
-	if g.r.Intn(5) == 0 {
-		ks, vs := []string{}, []Expr{}
-		for _, k := range append(append([]string{}, sg.kws...), "w", g.pick(varNames)) {
-			if !used[k] && g.r.Intn(2) == 0 {
-				used[k] = true
-				ks = append(ks, k)
-				vs = append(vs, g.genI(s, d))
+	// ** expansions come last; keys never conflict with explicit keywords or with each other
+	// (which one wins is not specified). One or two expansions; stored objects are expanded, too,
+	// possibly by several calls.
+	if g.r.Intn(4) == 0 && len(args) > 0 && args[len(args)-1].Kw == "" {
+		n := 1 + g.r.Intn(2)
+		for e := 0; e < n; e++ {
+			if kwos := s.lookup(tKW); len(kwos) > 0 && g.r.Intn(2) == 0 {
+				v := g.pick(kwos)
+				ok := true
+				for _, k := range s.sig(v).kws {
+					if used[k] {
+						ok = false
+					}
+				}
+				if ok {
+					for _, k := range s.sig(v).kws {
+						used[k] = true
+					}
+					args = append(args, Arg{Splat: 2, E: Var{v}})
+					g.st.dsplat++
+					continue
+				}
 			}
-		}
-		if len(ks) > 0 && len(args) > 0 && args[len(args)-1].Kw == "" {
-			args = append(args, Arg{Splat: 2, E: ObjLit{ks, vs}})
-			g.st.dsplat++
+			ks, vs := []string{}, []Expr{}
+			for _, k := range append(append([]string{}, sg.kws...), "w", g.pick(varNames)) {
+				if !used[k] && g.r.Intn(2) == 0 {
+					used[k] = true
+					ks = append(ks, k)
+					vs = append(vs, g.genI(s, d))
+				}
+			}
+			if len(ks) > 0 {
+				args = append(args, Arg{Splat: 2, E: ObjLit{ks, vs}})
+				g.st.dsplat++
+			}
 		}
 	}
 	return args
@@ -279,7 +302,7 @@ func (g *G) genFunc(s *scope, d int, method bool, retF bool) (Func, fsig) {
 func (g *G) genBody(s *scope, d int, n int) []Expr {
 	out := []Expr{}
 	for i := 0; i < n; i++ {
-		switch k := g.r.Intn(13); {
+		switch k := g.r.Intn(14); {
 		case k < 3:
 			out = append(out, Print{g.genA(s, 2)})
 		case k < 5:
@@ -321,6 +344,27 @@ func (g *G) genBody(s *scope, d int, n int) []Expr {
 			g.ctr++
 			out = append(out, Assign{n, ObjLit{[]string{"v", "m"}, []Expr{g.genI(s, 1), m}}})
 			s.def(n, tO, sg)
+		case k == 12 && g.r.Intn(2) == 0:
+			// an object kept in a variable and later expanded with ** (possibly by several calls)
+			n := "kwo" + fmt.Sprint(g.ctr)
+			g.ctr++
+			ks, vs := []string{}, []Expr{}
+			for _, kk := range append(append([]string{}, kwNames...), "w", g.pick(varNames)) {
+				dup := false
+				for _, have := range ks {
+					if have == kk {
+						dup = true
+					}
+				}
+				if !dup && g.r.Intn(2) == 0 {
+					ks = append(ks, kk)
+					vs = append(vs, g.genI(s, 1))
+				}
+			}
+			if len(ks) > 0 {
+				out = append(out, Assign{n, ObjLit{ks, vs}})
+				s.def(n, tKW, fsig{kws: ks})
+			}
 		case k < 12 && d > 0 && g.r.Intn(2) == 0:
 			// recursion with a strictly decreasing counter; every frame makes its own closure over n
 			n := "rec" + fmt.Sprint(g.ctr)
